@@ -712,7 +712,44 @@ def check_status(ck, s, tainted):
               "xzdiff: a non-zero, non-SIGPIPE decompressor status turns the result into exit 2",
               key="STATUS:xzdiff:exit2")
         n += 2
+    if s.name == "xzdiff":
+        # each operand is decompressed with the decompressor chosen from *its own* suffix
+        for c, ctx in s.cmds:
+            if c["t"] != "simple" or not c["words"]:
+                continue
+            p0 = [nm for nm, q, p in word_params(c["words"][0])]
+            if not p0 or p0[0] not in ("xz1", "xz2"):
+                continue
+            ops = [nm for w in c["words"][1:] for nm, q, p in word_params(w) if nm in ("1", "2")]
+            if not ops:
+                continue
+            n += 1
+            want = p0[0][-1]
+            ck.ob("C20-STATUS", "xzdiff:pair:%d" % c["line"], all(o == want for o in ops), s.where(c["line"]),
+                  "xzdiff: `%s` decompresses operand $%s with the decompressor selected for operand %s" % (
+                      " ".join(w.text() for w in c["words"]), ",".join(ops), want) if all(o == want for o in ops) else
+                  "xzdiff: `%s` decompresses operand $%s with $%s, the decompressor that was selected from the suffix of "
+                  "the OTHER operand: a .gz/.bz2 file is then compared as raw compressed bytes" % (
+                      " ".join(w.text() for w in c["words"]), ",".join(ops), p0[0]), key="STATUS:xzdiff:pair")
     if s.name == "xzgrep":
+        # res only moves 1 -> 0 (match) or up to the largest error: every later store is guarded by a test of $res
+        for (name, v, c, ctx) in s.assigns:
+            if name != "res" or sh.static_value(v) == "1":
+                continue
+            guarded = False
+            for anc in reversed(ctx):
+                if anc["t"] == "andor" and len(anc["items"]) == 2 and anc["items"][1][0] == "&&":
+                    left = anc["items"][0][1]["cmds"]
+                    right = anc["items"][1][1]["cmds"]
+                    if len(left) == 1 and left[0]["t"] == "simple" and left[0]["words"] and \
+                            left[0]["words"][0].plain() == "test" and right and right[0] is c and \
+                            any(nm == "res" for w in left[0]["words"] for nm, q, p in word_params(w)):
+                        guarded = True
+            n += 1
+            ck.ob("C20-STATUS", "xzgrep:res:%d" % c["line"], guarded, s.where(c["line"]),
+                  "xzgrep: res=%s is executed only under a test of the current $res" % v.text() if guarded else
+                  "xzgrep: res=%s at line %d is unconditional: a match in a later file erases the error status (>= 2) "
+                  "recorded for an earlier file" % (v.text(), c["line"]), key="STATUS:xzgrep:res-monotone")
         ex_ = [c for c, _ in s.cmds if c["t"] == "simple" and c["words"] and c["words"][0].plain() == "exit"]
         last = s.ast["items"][-1]["items"][0][1]["cmds"][0]
         okx = last["t"] == "simple" and [w.text() for w in last["words"]] == ["exit", '"$res"']
